@@ -197,6 +197,13 @@ def run_path(world, contract, ex, ctx, prefix, report):
             for i, e in enumerate(contract.ensures):
                 it.check(weaken(it, contract, 'post[%d]' % i, it.truth(it.eval_text(e))),
                          'post[%d]' % i, 'postcondition', ex.node)
+            # call sites treat a conditional `raises` clause as exact, so a normal return must exclude it
+            for ek, cond in contract.raises.items():
+                if cond is not True:
+                    with OldState(it):
+                        cnd = it.truth(it.eval_text(cond))
+                    it.check(z3.Not(cnd), 'must-raise[%s]' % ek,
+                             'normal return excludes the condition under which %s is raised' % ek, ex.node)
             report.exits['normal'] += 1
         else:
             it.exc = exc
@@ -484,24 +491,26 @@ class Decoder:
         return out
 
 
-def canary(world, contract):
-    """Vacuity guard: with ``ensures False`` some obligation must be refuted."""
-    import copy
-    c2 = copy.copy(contract)
-    c2.ensures = ['False']
-    c2.ensures_exc = ['False']
-    rep = verify_function(world, c2, discharge=False)
+def canary(world, contract, rep=None):
+    """Vacuity guard: some exit of the function must be reachable under the assumptions made on the way
+    (a contradictory requires / stub contract / loop invariant would make every obligation trivially true)."""
+    if rep is None:
+        rep = verify_function(world, contract, discharge=False)
     if rep.undecided:
         return None
-    for ob in rep.obligations:
-        if ob.label.startswith('post'):
-            s = z3.Solver()
-            s.set('timeout', 5000)
-            for h in ob.hyps:
-                s.add(h)
-            r = s.check()
-            if r == z3.sat:
-                return True
-            if r == z3.unknown:
-                return None
-    return False
+    exits = [ob for ob in rep.obligations
+             if ob.label.startswith(('post', 'raises', 'no-unexpected', 'must-raise', 'frame', 'result-not-None'))]
+    unknown = False
+    for ob in exits[:12]:
+        s = z3.Solver()
+        s.set('timeout', 3000)
+        for h in ob.hyps:
+            s.add(h)
+        r = s.check()
+        if r == z3.sat:
+            return True
+        if r == z3.unknown:
+            unknown = True
+    if not exits:
+        return None
+    return None if unknown else False
